@@ -61,7 +61,7 @@ HARNESSES = [
     H('c_clear', 'C01 C03 C04 C11'),
     H('c_drop_buffer', 'C03 C11'),
     # views
-    H('c_make_contiguous', 'C01 C03 C04 C07 C11 C20', stubs=[('core::slice::rotate::ptr_rotate', 'ptr_rotate_model')], unwind=lambda n: n + 4),
+    H('c_make_contiguous', 'C01 C03 C04 C07 C11 C20', stubs=[('core::slice::rotate::ptr_rotate', 'ptr_rotate_model')], unwind=lambda n: n + 4, ns_q=[0, 1, 3, 5]),
     H('c_get', 'C01 C04 C07 C11 C20'),
     H('c_get_mut', 'C01 C04 C07 C11 C20'),
     H('c_as_slices', 'C04 C07 C11 C20'),
@@ -89,7 +89,7 @@ HARNESSES += [
     H('c_range_must_panic', 'C11', untagged='', expect_panic=True),
     H('c_index_must_panic', 'C11', untagged='', expect_panic=True),
     # drain
-    H('c_drain', 'C01 C03 C04 C09 C10 C11 C20', unwind=lambda n: n + 4),
+    H('c_drain', 'C01 C03 C04 C09 C10 C11 C20', unwind=lambda n: n + 4, ns_q=[0, 1, 3, 4]),
     H('c_drain_leak', 'C10 C11', unwind=lambda n: n + 4),
     W('c_drain', 'C05', ns_q=[1, 2], ns_t=[1, 2, 3]),
     # destructor precondition (C05) / user-code precondition (C06) variants
@@ -162,7 +162,7 @@ _C17_OPS = ['c_push_back', 'c_push_front', 'c_try_push_back', 'c_pop_back', 'c_p
 _extra = []
 for _nm in _C17_OPS:
     _b = _find(_nm)
-    _n = 2 if 2 in (_b['ns']['thorough'] or []) else (_b['ns']['thorough'] or [1])[-1]
+    _n = 3 if 3 in (_b['ns']['thorough'] or []) else (2 if 2 in (_b['ns']['thorough'] or []) else (_b['ns']['thorough'] or [1])[-1])
     _stubs = list(_b.get('stubs', [])) + ALLOC_STUBS
     _extra.append(_variant(_b, '_na', 'C17', ns_q=[_n], ns_t=[_n] if _n == 3 else sorted(set([_n, 3]) & set(_b['ns']['thorough'])) or [_n], stubs=_stubs))
 # positive control: boxed() MUST trip the stub, otherwise the stub is not effective
@@ -198,8 +198,28 @@ HARNESSES += [
     H('p_callback_panic', 'C06', native_only=True, untagged='', ns_q=[1, 2, 3], ns_t=[1, 2, 3, 4]),
     H('p_zst_huge', 'C19', native_only=True, untagged='', name='p_zst_huge_max', call='p_zst_huge::<{ usize::MAX }>()', ns_q=[0], ns_t=[0]),
     H('p_zst_huge', 'C19', native_only=True, untagged='', name='p_zst_huge_half', call='p_zst_huge::<{ usize::MAX / 2 + 2 }>()', ns_q=[0], ns_t=[0]),
+    H('p_debug', 'C07 C13', native_only=True, untagged='', ns_q=[0, 1, 2, 3], ns_t=[0, 1, 2, 3, 4]),
+    H('t_ops', 'C18', native_only=True, untagged='', trace=True, ns_q=[1, 2, 3], ns_t=[0, 1, 2, 3, 4]),
+    H('p_destructor_panic', 'C18', name='t_destructor_panic', call='p_destructor_panic::<{N}>()', native_only=True, untagged='', trace=True, ns_q=[2, 3], ns_t=[1, 2, 3, 4], requires='t_ops'),
+    H('p_callback_panic', 'C18', name='t_callback_panic', call='p_callback_panic::<{N}>()', native_only=True, untagged='', trace=True, ns_q=[2, 3], ns_t=[1, 2, 3, 4], requires='t_ops'),
+    H('p_debug', 'C18', name='t_debug', call='p_debug::<{N}>()', native_only=True, untagged='', trace=True, ns_q=[3], ns_t=[2, 3, 4]),
     H('p_documented_panic', 'C11', native_only=True, untagged='', ns_q=[0, 1, 2, 3], ns_t=[0, 1, 2, 3, 4]),
 ]
 for _n, _m in [(0, 2), (1, 3), (2, 2), (2, 4), (3, 5)]:
     HARNESSES.append(H('p_destructor_panic_owned', 'C05', name='p_destructor_panic_owned_m%d' % _m, native_only=True, untagged='',
                        call='p_destructor_panic_owned::<{N}, %d>()' % _m, ns_q=[_n], ns_t=[_n]))
+
+
+# entries whose contract function is not (yet) defined in the harness module are dropped
+def _defined_fns():
+    import os, re
+    kdir = os.environ.get('VERIF_KDIR') or os.path.join(os.path.dirname(os.path.dirname(os.path.abspath(__file__))), 'contracts', 'kani')
+    names = set()
+    for f in os.listdir(kdir):
+        if f.endswith('.rs'):
+            names.update(re.findall(r'\bfn\s+(\w+)', open(os.path.join(kdir, f)).read()))
+    return names
+
+
+_fns = _defined_fns()
+HARNESSES = [e for e in HARNESSES if e['fn'] in _fns and (not e.get('requires') or e['requires'] in _fns)]
